@@ -39,6 +39,39 @@ out.append("\n" + read("notes/design9-observations.md"))
 out.append("\n### 9.4 Sensitivity: which check catches which change\n\n")
 out.append(read("notes/mutation-results.md").split("-->", 1)[1].lstrip())
 
+# generic mutation run (tools/automut.py)
+am = {}
+for fp in sorted(glob.glob(os.path.join(ROOT, "notes", "automut", "C*.jsonl"))):
+    pid = os.path.basename(fp)[:-6]
+    last = {}
+    for l in open(fp):
+        o = json.loads(l)
+        last[(o["file"], o["start"], o["repl"])] = o  # a re-run of the same mutant supersedes
+    am[pid] = list(last.values())
+triage = {}
+tp = os.path.join(ROOT, "notes", "automut", "triage.json")
+if os.path.exists(tp):
+    triage = json.load(open(tp))
+if am:
+    out.append("\n#### Generic source-level mutants (`tools/automut.py`)\n\n")
+    out.append(read("notes/design9-automut-intro.md"))
+    out.append("\n| property | sampled | do not compile | killed by the repository's own tests | killed by `./check` (quick) | survived | inconclusive |\n|---|---|---|---|---|---|---|\n")
+    tot = [0] * 6
+    for pid in sorted(am):
+        rs = am[pid]
+        c = lambda pred: sum(1 for r in rs if pred(r.get("result", "")))
+        row = [len(rs), c(lambda x: x == "nocompile"), c(lambda x: x.startswith("suite")), c(lambda x: x == "killed"), c(lambda x: x == "survived"), c(lambda x: x == "inconclusive")]
+        tot = [a + b for a, b in zip(tot, row)]
+        out.append("| %s | %s |\n" % (pid, " | ".join(str(v) for v in row)))
+    out.append("| all | %s |\n" % " | ".join(str(v) for v in tot))
+    surv = [(pid, r) for pid in sorted(am) for r in am[pid] if r.get("result") == "survived"]
+    if surv:
+        out.append("\nSurvivors and their triage (a survivor is a mutant of an anchored file that neither the repository's tests nor the quick check noticed):\n\n| property | mutant | verdict |\n|---|---|---|\n")
+        for pid, r in surv:
+            key = "%s:%s:%d:%s" % (pid, r["file"], r["line"], r["op"])
+            v = triage.get(key, "not triaged yet")
+            out.append("| %s | `%s:%d` %s `%s` -> `%s` (%s) | %s |\n" % (pid, r["file"], r["line"], r["func"], r["orig"][:50].replace("|", "\\|").replace("\n", " "), r["repl"][:40].replace("|", "\\|"), r["op"].replace("|", "\\|"), v.replace("|", "\\|")))
+
 out.append("\n### 9.5 Independently seeded changes\n\n")
 out.append(read("notes/design9-seeded-intro.md"))
 rows = []
